@@ -2,7 +2,7 @@
   Props/C01/Sound.lean — `peval_sound`: the eager result of a ground expression, once its remaining
   inputs are bound, is the textbook value (`denote`) of the expression.
 -/
-import FunsorVerif.Props.C01.Rows
+import FunsorVerif.Props.C01.Subs
 namespace FV.Props.C01
 open FV FV.C01
 
@@ -111,6 +111,37 @@ theorem envIdx_congr (e1 e2 : Env) (n : Name) (s : Nat)
     (h : (e1.lookup n).bind Sem.toNat? = (e2.lookup n).bind Sem.toNat?) : envIdx e1 n s = envIdx e2 n s := by
   simp only [envIdx, h]
 
+theorem xrToNat_nat (n : Nat) : xrToNat? (XR.fin (n : Rat)) = some n := by
+  simp [xrToNat?]
+
+theorem rangeNT_idx (m : Name) (start step len : Nat) (env : Env)
+    (hp : (preOf (rangeNT m start step len).inputs env).isSome) :
+    idxAt (rangeNT m start step len) env =
+      ((env.lookup m).bind Sem.toNat?).map (fun i => start + step * i) := by
+  obtain ⟨p, hp⟩ := Option.isSome_iff_exists.mp hp
+  simp only [rangeNT, preOf] at hp
+  split at hp
+  · rename_i i is hi his
+    cases his; cases hp
+    obtain ⟨hl, _⟩ := envIdx_some hi
+    simp only [idxAt, NT.atEnv, rangeNT, preOf, hi, Option.map_some, Option.bind_some, hl]
+    rw [toNat?_eq _ rfl]
+    show xrToNat? (XR.fin ((start + step * i : Nat) : Rat)) = _
+    rw [xrToNat_nat]
+  · cases hp
+
+/-- `Slice(m, start, stop, step)` used as a substitution value / index is the arange tensor over its own
+    input: at every environment it denotes `start + step·m`, the textbook value of the Slice term. -/
+theorem slice_sem (m : Name) (start stop step dt : Nat) (env : Env)
+    (hp : (preOf (rangeNT m start step (sliceLen start stop step)).inputs env).isSome) :
+    idxAt (rangeNT m start step (sliceLen start stop step)) env =
+      (denote (Term.slice m start stop step dt) env).bind Sem.toNat? := by
+  rw [rangeNT_idx m start step _ env hp]
+  simp only [denote]
+  cases (env.lookup m).bind Sem.toNat? with
+  | none => rfl
+  | some i => simp [toNat_ofNat]
+
 mutual
   /-- **C01 (soundness).**  Whenever the partial evaluator (= eager interpretation on ground
       operands) returns a tensor `r` for the expression `t`, then under every environment binding
@@ -141,28 +172,54 @@ mutual
     | Term.binary op l rr, r, h, env, hp => by
       simp only [peval] at h
       split at h
-      · rename_i a b ha hb
-        have hs : r.atEnv env = (match a.atEnv env, b.atEnv env with
-            | some x, some y => evalBinary op x y
-            | _, _ => none) := by
-          unfold binaryOp at h
-          split at h
-          · rename_i hname
-            exact getitem_sem op a b r env (by simpa using hname) h hp
-          · exact binary_sem op a b r env h hp
-        have hsome : (r.atEnv env).isSome := by rw [atEnv_isSome]; exact hp
-        rw [hs] at hsome
-        cases hx : a.atEnv env with
-        | none => rw [hx] at hsome; simp at hsome
-        | some x =>
-          cases hy : b.atEnv env with
-          | none => rw [hx, hy] at hsome; simp at hsome
-          | some y =>
-            have hpa : (preOf a.inputs env).isSome := by rw [← atEnv_isSome, hx]; rfl
-            have hpb : (preOf b.inputs env).isSome := by rw [← atEnv_isSome, hy]; rfl
-            rw [hs, hx, hy]
-            simp only [denote, ← peval_sound l a ha env hpa, ← peval_sound rr b hb env hpb, hx, hy]
-      · cases h
+      · -- getitem: the index may be a Variable / Slice (arange) — only the index it denotes matters
+        rename_i hname
+        have hname' : op.name = "getitem" := by simpa using hname
+        split at h
+        · rename_i a b ha hb
+          have hs := getitem_semI (getitemOffset op) a b r env h hp
+          have hsome : (r.atEnv env).isSome := by rw [atEnv_isSome]; exact hp
+          rw [hs] at hsome
+          cases hx : a.atEnv env with
+          | none => rw [hx] at hsome; simp at hsome
+          | some x =>
+            cases hy : idxAt b env with
+            | none => rw [hx, hy] at hsome; simp at hsome
+            | some k =>
+              have hpa : (preOf a.inputs env).isSome := by rw [← atEnv_isSome, hx]; rfl
+              have hpb : (preOf b.inputs env).isSome := by
+                rw [← atEnv_isSome]
+                unfold idxAt at hy
+                cases hb' : b.atEnv env with
+                | none => rw [hb'] at hy; simp at hy
+                | some _ => rfl
+              have hidx := pevalIdx_sound rr b hb env hpb
+              rw [hy] at hidx
+              rw [hs, hx, hy]
+              simp only [denote, ← peval_sound l a ha env hpa, hx]
+              cases hd : denote rr env with
+              | none => rw [hd] at hidx; simp at hidx
+              | some y =>
+                rw [hd] at hidx
+                simp only [Option.bind_some] at hidx
+                simp only [evalBinary_getitem op hname', ← hidx, Option.bind_some, getitemOffset]
+        · cases h
+      · split at h
+        · rename_i a b ha hb
+          have hs := binary_sem op a b r env h hp
+          have hsome : (r.atEnv env).isSome := by rw [atEnv_isSome]; exact hp
+          rw [hs] at hsome
+          cases hx : a.atEnv env with
+          | none => rw [hx] at hsome; simp at hsome
+          | some x =>
+            cases hy : b.atEnv env with
+            | none => rw [hx, hy] at hsome; simp at hsome
+            | some y =>
+              have hpa : (preOf a.inputs env).isSome := by rw [← atEnv_isSome, hx]; rfl
+              have hpb : (preOf b.inputs env).isSome := by rw [← atEnv_isSome, hy]; rfl
+              rw [hs, hx, hy]
+              simp only [denote, ← peval_sound l a ha env hpa, ← peval_sound rr b hb env hpb, hx, hy]
+        · cases h
     | Term.reduce op arg vars, r, h, env, hp => by
       simp only [peval] at h
       split at h
@@ -183,16 +240,36 @@ mutual
     | Term.subs arg σ, r, h, env, hp => by
       simp only [peval] at h
       split at h
-      · rename_i ra σn hra hσ
-        obtain ⟨bound, hb, hl⟩ := denoteSubs_nums env σ σn hσ
-        have hs := subsNum_sem σn ra r env (bound ++ env) h hp
-          (fun p _ => envIdx_congr _ _ _ _ (hl p.1))
-        have hsome : (ra.atEnv (bound ++ env)).isSome := by
-          rw [← hs, atEnv_isSome]; exact hp
-        rw [atEnv_isSome] at hsome
-        rw [hs, peval_sound arg ra hra _ hsome]
-        simp only [denote, hb]
       · cases h
+      · rename_i ra hra
+        split at h
+        · rename_i σn hσ
+          obtain ⟨bound, hb, hl⟩ := denoteSubs_nums env σ σn hσ
+          have hs := subsNum_sem σn ra r env (bound ++ env) h hp
+            (fun p _ => envIdx_congr _ _ _ _ (hl p.1))
+          have hsome : (ra.atEnv (bound ++ env)).isSome := by
+            rw [← hs, atEnv_isSome]; exact hp
+          rw [atEnv_isSome] at hsome
+          rw [hs, peval_sound arg ra hra _ hsome]
+          simp only [denote, hb]
+        · split at h
+          · rename_i σv hσv
+            have hidx := subsGen_idx_some σv ra r env h hp
+            obtain ⟨bound, hb, hl⟩ := pevalSubs_sound σ σv hσv env hidx
+            have hs := subsGen_sem σv ra r env (bound ++ env) h hp (by
+              intro q _
+              have := hl q.1
+              unfold envIdx
+              rw [this]
+              cases σv.lookup q.1 with
+              | none => rfl
+              | some v => simp only; cases idxAt v env <;> rfl)
+            have hsome : (ra.atEnv (bound ++ env)).isSome := by
+              rw [← hs, atEnv_isSome]; exact hp
+            rw [atEnv_isSome] at hsome
+            rw [hs, peval_sound arg ra hra _ hsome]
+            simp only [denote, hb]
+          · cases h
     | Term.stack n parts, r, h, env, hp => by
       simp only [peval] at h
       split at h
@@ -288,6 +365,89 @@ mutual
           simp only [List.getElem?_cons_succ] at hi
           simp only [denoteNth]
           exact pevalList_sound ts rs' hrs' i r hi env hp
+      · cases h
+  /-- An index value (Variable / Slice as arange, or an evaluated tensor) denotes the same index. -/
+  theorem pevalIdx_sound : ∀ (t : Term) (v : NT), pevalIdx t = some v →
+      ∀ env, (preOf v.inputs env).isSome → idxAt v env = (denote t env).bind Sem.toNat?
+    | Term.var m d, v, h, env, hp => by
+      obtain ⟨dt, sh⟩ := d
+      cases dt with
+      | real => simp [pevalIdx] at h
+      | bint s =>
+        cases sh with
+        | cons _ _ => simp [pevalIdx] at h
+        | nil =>
+          simp only [pevalIdx, Option.some.injEq] at h; subst h
+          exact rangeNT_idx m 0 1 s env hp |>.trans (by simp [denote, Nat.zero_add, Nat.one_mul])
+    | Term.slice m start stop step dt, v, h, env, hp => by
+      simp only [pevalIdx, Option.some.injEq] at h; subst h
+      rw [rangeNT_idx m start step _ env hp]
+      simp only [denote]
+      cases (env.lookup m).bind Sem.toNat? with
+      | none => rfl
+      | some i => simp [toNat_ofNat]
+    | Term.num x dt, v, h, env, hp => by
+      simp only [pevalIdx] at h
+      rw [idxAt, peval_sound (Term.num x dt) v (by simpa [peval] using h) env hp]
+    | Term.tensor i d x, v, h, env, hp => by
+      simp only [pevalIdx] at h
+      rw [idxAt, peval_sound (Term.tensor i d x) v (by simpa [peval] using h) env hp]
+    | Term.stack n parts, v, h, env, hp => by
+      simp only [pevalIdx] at h
+      rw [idxAt, peval_sound (Term.stack n parts) v (by simpa [peval] using h) env hp]
+    | Term.subs _ _, v, h, _, _ => by simp [pevalIdx] at h
+    | Term.unary _ _, v, h, _, _ => by simp [pevalIdx] at h
+    | Term.binary _ _ _, v, h, _, _ => by simp [pevalIdx] at h
+    | Term.reduce _ _ _, v, h, _, _ => by simp [pevalIdx] at h
+    | Term.cat _ _ _ _, v, h, _, _ => by simp [pevalIdx] at h
+    | Term.lambda _ _ _, v, h, _, _ => by simp [pevalIdx] at h
+    | Term.independent _ _ _ _ _, v, h, _, _ => by simp [pevalIdx] at h
+    | Term.align _ _, v, h, _, _ => by simp [pevalIdx] at h
+    | Term.contraction _ _ _ _, v, h, _, _ => by simp [pevalIdx] at h
+    | Term.finitary _ _, v, h, _, _ => by simp [pevalIdx] at h
+    | Term.delta _, v, h, _, _ => by simp [pevalIdx] at h
+  /-- The substitution values, evaluated in the caller's environment, bind each key to the index its
+      model value denotes. -/
+  theorem pevalSubs_sound : ∀ (σ : List (Name × Term)) (σv : List (Name × NT)), pevalSubs σ = some σv →
+      ∀ env, (∀ q ∈ σv, (idxAt q.2 env).isSome) →
+      ∃ bound, denoteSubs σ env = some bound ∧
+        ∀ n, ((bound ++ env).lookup n).bind Sem.toNat? =
+          (match σv.lookup n with
+           | some v => idxAt v env
+           | none => (env.lookup n).bind Sem.toNat?)
+    | [], σv, h, env, _ => by
+      simp only [pevalSubs, Option.some.injEq] at h; subst h
+      exact ⟨[], by simp [denoteSubs], fun n => by simp⟩
+    | (k, t) :: rest, σv, h, env, hall => by
+      simp only [pevalSubs] at h
+      split at h
+      · rename_i v vs hv hvs
+        cases h
+        obtain ⟨b', hb', hl'⟩ := pevalSubs_sound rest vs hvs env
+          (fun q hq => hall q (List.mem_cons_of_mem _ hq))
+        have hsome := hall (k, v) List.mem_cons_self
+        obtain ⟨i, hi⟩ := Option.isSome_iff_exists.mp hsome
+        simp only at hi
+        have hpv : (preOf v.inputs env).isSome := by
+          rw [← atEnv_isSome]
+          unfold idxAt at hi
+          cases hb : v.atEnv env with
+          | none => rw [hb] at hi; simp at hi
+          | some _ => rfl
+        have hidx := pevalIdx_sound t v hv env hpv
+        rw [hi] at hidx
+        cases hd : denote t env with
+        | none => rw [hd] at hidx; simp at hidx
+        | some sv =>
+          rw [hd] at hidx
+          simp only [Option.bind_some] at hidx
+          refine ⟨(k, sv) :: b', by simp [denoteSubs, hd, hb'], ?_⟩
+          intro n
+          simp only [List.cons_append, Env.lookup, List.lookup_cons]
+          rw [BEq.comm (a := k) (b := n)]
+          by_cases hk : n == k
+          · simp only [hk, if_true, Option.bind_some, ← hidx, hi]
+          · simp only [hk]; exact hl' n
       · cases h
 end
 
